@@ -1122,7 +1122,7 @@ func c03FilterBrowse(xs []string) []string {
 func init() {
 	register(&Property{
 		ID: "C03", Imports: "V.Lib V.GoPath V.C03_Model", Judge: "judge",
-		Rule: "source scan for assignments to a request's URL path; internalsrv.Internal over scripted inner handlers (X-Accel-Redirect response/request headers, loops); canonical-order sites (rewriters incl. prefix-stripping and capture rewrites, tryfiles, ext x 1-3 basicauth rules with nested excludes x internal x proxy to a recording backend that can answer X-Accel-Redirect) compared with the chain model on the final path measured on the unprotected twin site; direct Path.Matches calls on generated spellings/bases; basicauth rules built by the real directive parser (resources, excludes, which credentials the request carries) and internal; full in-process sites (protection directive x random subset of rewrite/tryfiles/ext/index/gzip/browse+archives/templates/markdown/proxy/header/errors/mime) queried over raw request lines with path spellings x methods x credentials x Accept-Encoding, decoded bodies (gunzip/unzip/untar) searched for planted tokens; non-trivial = matcher true / 401 issued / site answered something other than 404",
+		Rule: "source scan for assignments to a request's URL path; internalsrv.Internal over scripted inner handlers (X-Accel-Redirect response/request headers, loops); canonical-order sites (rewriters incl. prefix-stripping and capture rewrites, tryfiles, ext x 1-3 basicauth rules with nested excludes x internal x proxy to a recording backend that can answer X-Accel-Redirect) compared with the chain model on the final path measured on the unprotected twin site; direct Path.Matches calls on generated spellings/bases; basicauth rules built by the real directive parser (resources, excludes, which credentials the request carries) and internal; full in-process sites (protection directive x random subset of rewrite/tryfiles/ext/index/gzip/browse+archives/templates/markdown/proxy/header/errors/mime) queried over raw request lines with path spellings x methods x credentials x Accept-Encoding, decoded bodies (gunzip/unzip/untar) searched for planted tokens; server blocks with 2-3 addresses (host names on one port / several ports / both) for the hide, serve and site configurations, the request sent to EVERY address and each answer judged like a single site's; basicauth.GetHtpasswdMatcher on generated htpasswd texts (plain, {PLAIN}, {SHA}, apr1, noise, overridden users, malformed lines); request SEQUENCES on one running site with htpasswd-file rules (every ordered pair of users: login, the other name with that password, wrong/no credentials; files replaced and the site restarted, incl. unloadable files) judged per request on status + planted tokens; non-trivial = matcher true / 401 issued / site answered something other than 404",
 		Gen:    c03Gen,
 		Decode: func(raw json.RawMessage) (interface{}, error) { in := &c03In{}; return in, json.Unmarshal(raw, in) },
 		Run:    c03Run,
